@@ -237,7 +237,7 @@ func showVals17(v []any) string {
 }
 
 func runC17(c *fw.Ctx) {
-	c.Cases("sort", c.N(3000, 200000), false, func(i int, r *rng.R) {
+	c.Cases("sort", c.N(3000, 2000000), false, func(i int, r *rng.R) {
 		kind := r.Intn(3)
 		n := []int{1, 2, 3, 4, 5, 8, 13, 21, 40, r.Range(1, 40)}[r.Intn(10)]
 		vals := c17Values(r, kind, n)
@@ -258,7 +258,7 @@ func runC17(c *fw.Ctx) {
 			c17Sort(c, r, pins[i], kind)
 		}
 	})
-	c.Cases("sort-rejects", c.N(300, 10000), false, func(i int, r *rng.R) {
+	c.Cases("sort-rejects", c.N(300, 100000), false, func(i int, r *rng.R) {
 		// first element neither string, int nor float: panic, list unchanged
 		first := []any{nil, true, at.NewList(1), at.NewObject("a", 1)}[r.Intn(4)]
 		vals := append([]any{first}, c09Vals(r, r.Intn(6), 0)...)
@@ -278,7 +278,7 @@ func runC17(c *fw.Ctx) {
 			}
 		})
 	})
-	c.Cases("reverse", c.N(2000, 100000), false, func(i int, r *rng.R) {
+	c.Cases("reverse", c.N(2000, 1000000), false, func(i int, r *rng.R) {
 		n := []int{0, 1, 2, 3, 4, 5, 6, 7, 16, 17, r.Range(0, 40)}[r.Intn(11)]
 		vals := c09Vals(r, n, []int{0, 0, 0, 1, 2, 3}[r.Intn(6)])
 		if n > 2 && r.Chance(1, 3) { // the same nested container at two positions
